@@ -13,6 +13,7 @@ from .c04 import PL3, place
 
 PROPERTY = "C15"
 ENGINE = "E2"
+TECHNIQUE = "bounded-exhaustive enumeration of vertex lists classified exactly as valid/invalid (all orders, both orientations, off-plane, duplicates) plus aliasing probes"
 RULE = (
     "cases, each classified by an exact oracle as clearly valid or clearly invalid: Polygon over P2 vertex cycles - simple (accept, both "
     "orientations) / properly crossing (ValueError) -, duplicated vertex, fewer than 3 vertices, one vertex lifted off the plane by 1% "
